@@ -1,5 +1,6 @@
 """C20 — spatio-temporal constraints are a pure, monotone filter on candidate pairs (filter semantics)."""
 import trackerlib as T
+from mir import norm
 import votinglib as V
 from lib import (ExprBuilder, all_closures, as_cmp, closure_args_of_call, orient, path_conditions,
                  result_assignments, upvar_expr)
@@ -34,12 +35,33 @@ def run(ctx):
     r4(ctx)
 
 
+def elem_roles(F):
+    """(gap component, limit component) of one element of the constraint table: `.0` / `.1` of the reference tuple
+    `(usize, f32)`, or - when the element became a private struct - the names of its usize and f32 fields"""
+    a = F.adts.get('trackers::spatio_temporal_constraints::SpatioTemporalConstraints')
+    if a:
+        for v in a['variants']:
+            for f in v['fields']:
+                if f['name'] == 'constraints':
+                    ty = f['ty']
+                    inner = ty[ty.index('<') + 1:ty.rindex('>')].strip() if '<' in ty else ''
+                    if inner and not inner.startswith('('):
+                        e = F.adts.get(norm(inner.split('<', 1)[0]))
+                        if e and len(e['variants']) == 1:
+                            gaps = [g['name'] for g in e['variants'][0]['fields'] if g['ty'] == 'usize']
+                            lims = [g['name'] for g in e['variants'][0]['fields'] if g['ty'] == 'f32']
+                            if len(gaps) == 1 and len(lims) == 1:
+                                return gaps[0], lims[0]
+    return '0', '1'
+
+
 def r1(ctx):
     R = 'R20.1'
     ctx.rule(R, 'validate: first constraint with gap >= epoch gap; admitted iff dist <= limit; none => admitted')
     b = ctx.anchor(R, STC + '::validate')
     if b is None:
         return
+    GAP, LIM = elem_roles(ctx.F)
     F = ctx.F
     eb = ExprBuilder(b)
     n = 0
@@ -79,7 +101,7 @@ def r1(ctx):
                 o = orient(cm, lambda e: not is_gap(e.strip()))
                 n += 1
                 ok2 = o is not None and is_gap(o[2].strip()) and o[0] == 'Ge' and o[1].strip().kind == 'place' and \
-                    o[1].strip().fields[-1:] == ('0',)
+                    o[1].strip().fields[-1:] == (GAP,)
                 ctx.check(ok2, R, cb, 'lookup:gap>=epoch_delta', '%r %s epoch_delta' % (o[1], o[0]) if o else '',
                           'a constraint is considered applicable when `%s` (expected `configured gap >= epoch gap`)' %
                           ('%r %s %r' % (cm[1], cm[0], cm[2])))
@@ -99,7 +121,7 @@ def r1(ctx):
             n += 1
             o = orient(cm, lambda e: e.strip().kind == 'place' and e.strip().root == ('param', 3)) if cm else None
             some_le = o is not None and o[0] == 'Le' and (o[2].has_call('find')) and (
-                o[2].strip().proj[-1:] == ('1',) or o[2].proj[-1:] == ('1',) or '1' in repr(o[2])[-4:])
+                o[2].strip().proj[-1:] == (LIM,) or o[2].proj[-1:] == (LIM,) or repr(o[2]).endswith('.' + LIM))
             ctx.check(some_le, R, b, 'admitted-iff-dist<=limit', '%s' % (('%r %s %r' % (o[1], o[0], o[2])) if o else cm),
                       'with an applicable constraint the pair is admitted when `%s` (expected `dist <= configured '
                       'limit` of the selected constraint)' % (('%r %s %r' % (cm[1], cm[0], cm[2])) if cm else payload))
@@ -111,6 +133,7 @@ def r1(ctx):
 
 def loop_form_validate(ctx, R, b, eb):
     """validate() written as an explicit forward loop with an early return on the first applicable constraint"""
+    GAP, LIM = elem_roles(ctx.F)
     n = 0
     nx = [c for c in b.find_calls('std::iter::Iterator::next') if b.in_loop(c.bb)]
     n += 1
@@ -140,7 +163,7 @@ def loop_form_validate(ctx, R, b, eb):
             if not cm:
                 continue
             o = orient(cm, lambda e: e.strip().kind == 'place' and e.strip().root == ('param', 2))
-            if o and o[2].has_call('next') and '0' in repr(o[2])[-3:]:
+            if o and o[2].has_call('next') and repr(o[2].strip()).endswith('.' + GAP):
                 # epoch_gap OP elem.0  ->  elem.0 flipped
                 from mir import FLIP
                 gap_ok = gap_ok or FLIP.get(o[0], o[0]) == 'Ge'
@@ -151,7 +174,7 @@ def loop_form_validate(ctx, R, b, eb):
         if knd == 'expr':
             cm = as_cmp(payload, True)
             o = orient(cm, lambda e: e.strip().kind == 'place' and e.strip().root == ('param', 3)) if cm else None
-            ok = o is not None and o[0] == 'Le' and o[2].has_call('next') and '1' in repr(o[2])[-3:]
+            ok = o is not None and o[0] == 'Le' and o[2].has_call('next') and repr(o[2].strip()).endswith('.' + LIM)
             ctx.check(ok, R, b, 'admitted-iff-dist<=limit', '%s' % (('%r %s %r' % (o[1], o[0], o[2])) if o else cm),
                       'with an applicable constraint the pair is admitted when `%s` (expected `dist <= configured '
                       'limit` of the selected constraint)' % (('%r %s %r' % (cm[1], cm[0], cm[2])) if cm else payload))
@@ -192,7 +215,7 @@ def writer_clauses(ctx, R, b, tag):
     for c in sorts:
         d, f = V.sort_semantics(F, b, c)
         n += 1
-        ctx.check(d == 'asc' and f == '0', R, b, tag + 'sort:ascending-by-gap', '%s on .%s' % (d, f),
+        ctx.check(d == 'asc' and f == elem_roles(F)[0], R, b, tag + 'sort:ascending-by-gap', '%s on .%s' % (d, f),
                   'the table is sorted %s on field .%s (expected ascending by gap: `find` must meet the smallest '
                   'applicable gap first)' % (d, f), c.ln)
         recv = eb.arg(c, 0)
@@ -211,7 +234,7 @@ def writer_clauses(ctx, R, b, tag):
     for c in dedups:
         k = V.dedup_key(F, b, c)
         n += 1
-        ctx.check(k == '0', R, b, tag + 'dedup:by-gap', 'duplicates identified by field .%s' % k,
+        ctx.check(k == elem_roles(F)[0], R, b, tag + 'dedup:by-gap', 'duplicates identified by field .%s' % k,
                   'duplicates are identified by field .%s instead of equal gaps' % k, c.ln)
     return n
 
